@@ -26,11 +26,14 @@ Theorem C01_browsename_second_colon_refuted : split_browsename (lit "1:Var:colon
 Proof. exact C01_browsename_second_colon_refuted. Qed.
 
 (* faithful to the code (known finding): AccessLevel/EventNotifier/ValueRank wrap to Int8 *)
-Theorem C01_int8_wrap_refuted : cast_attr (lit "AccessLevel") (lit "255") [] [] = Ok (AInt (-1)%Z).
-Proof. exact C01_int8_wrap_refuted. Qed.
+Theorem C01_int_attr_faithful k z nsmap amap : int_attr_range k z = true -> cast_attr k (decZ z) nsmap amap = Ok (AInt z).
+Proof. exact (T_Parse.C01_int_attr_faithful k z nsmap amap). Qed.
+Theorem C01_sampling_interval_wrap_refuted : cast_attr (lit "MinimumSamplingInterval") (lit "3000000000") [] [] = Ok (AInt (-1294967296)%Z).
+Proof. exact C01_sampling_interval_wrap_refuted. Qed.
 
 Print Assumptions C01_file_rows.
 Print Assumptions C01_row_count.
 Print Assumptions C01_first_text.
 Print Assumptions C01_browsename_second_colon_refuted.
-Print Assumptions C01_int8_wrap_refuted.
+Print Assumptions C01_int_attr_faithful.
+Print Assumptions C01_sampling_interval_wrap_refuted.
